@@ -1,5 +1,5 @@
 """C02 — acknowledged writes survive a crash at any point; batches are all-or-nothing."""
-from gen import lib, crash
+from gen import lib, crash, codec
 
 PROP_FILE = "props/C02.v"
 WANT = ("recover", "post")
@@ -37,10 +37,13 @@ def corpus():
 
 
 def suites(tier, seed, rng):
-    return [crash.CrashSuite(corpus() + gen_cases(tier, rng), WANT)]
+    return [crash.CrashSuite(corpus() + gen_cases(tier, rng), WANT),
+            codec.CodecSuite("codec", codec.gen(tier, rng, ("B",)), lambda i, s, c: True)]
 
 
 def replay_suites(rp):
+    if rp.get("suite") == "codec":
+        return [codec.CodecSuite("codec", [rp["case"]], lambda i, s, c: True)]
     return [crash.CrashSuite([rp["case"]], WANT)]
 
 
@@ -59,4 +62,6 @@ def nontrivial(suite, case):
 
 
 def classify(suite, case):
+    if suite == "codec":
+        return "codec:batch"
     return "crash:" + case.split(" # ")[2].split(",")[0].split(":")[0]
